@@ -212,6 +212,13 @@ theorem C11_wrapper_total (tys : List Ty) (args : List GVal) :
 theorem C11_proxy_matches_source :
     Skeleton.current.pxResultChecksValid = true ∧ Skeleton.current.pxArgsFreshPerInvocation = true := by decide
 
+/-- Each callable the handler receives stands for the caller's function AT THAT ARGUMENT POSITION: the
+    proxy decodes the closure id from its own position into a variable of the per-invocation literal and
+    builds the `CallClosure` stub there (checked against the regenerated skeleton) — nothing is shared
+    between two function-typed parameters of one call, between concurrent invocations, or between links. -/
+theorem C11_each_callable_is_its_own_closure :
+    Skeleton.current.pxClosureIdPerInvocation = true ∧ Skeleton.current.pxArgsFreshPerInvocation = true := by decide
+
 /-- "…any number of times, also concurrently": `CallClosure` looks the closure up under the table's
     (plain) mutex and releases it BEFORE running the caller's function, and the table is touched only by
     register / look-up / release (checked against the regenerated skeleton).  So concurrent invocations
@@ -224,6 +231,7 @@ theorem C11_invocations_run_outside_the_table_lock :
 end Panrpc.Cv
 
 #print axioms Panrpc.Cv.C11_invocations_run_outside_the_table_lock
+#print axioms Panrpc.Cv.C11_each_callable_is_its_own_closure
 #print axioms Panrpc.Cv.C11_args_converted
 #print axioms Panrpc.Cv.C11_convert_total_partial
 #print axioms Panrpc.Cv.C11_arg_count_mismatch_is_error_not_panic
